@@ -175,7 +175,7 @@ fn query_has_disconnected_optional(q: &Query) -> bool {
     false
 }
 
-fn query_varlen_inside_longer_pattern(q: &Query) -> bool {
+pub fn query_varlen_inside_longer_pattern(q: &Query) -> bool {
     q.parts.iter().flatten().any(|c| match c {
         Clause::Match { patterns, .. } => patterns.iter().any(|p| p.shortest == Shortest::No && p.steps.len() > 1 && p.steps.iter().any(|(r, _)| r.varlen.is_some())),
         _ => false,
